@@ -1270,13 +1270,13 @@ def bi_list(it, args, kwargs, pc):
 
 
 def bi_set(it, args, kwargs, pc):
-    """sets of objects are modelled as insertion lists tagged 'set' (no deduplication is
-    modelled: consumers that depend on it must say so)"""
+    """sets of objects are modelled as insertion lists tagged 'set'; every element goes in through
+    the set's add (deduplication by the interpreted __hash__ / __eq__)"""
     s = SymList([])
     s.origin = "set"
     if args:
         for pres, v in it.iter_items(args[0], it.frames[-1], pc):
-            symlist_append(it, s, v, it.vc.c_and(pc, pres))
+            symlist_method(it, s, "add", [v], {}, it.vc.c_and(pc, pres))
     return s
 
 
